@@ -158,6 +158,48 @@ fn zone_differential(cfg: &Config, offset: usize, depth: usize, col: &Mutex<Coll
     for _ in 0..depth {
         let mut next = vec![];
         for (bytes, m, path) in &frontier {
+            // frames below the offset are rejected by get, put and stats_at, without effect
+            twin.bufs.restore(bytes);
+            for order in [0usize, 6, HUGE_ORDER] {
+                let len = 1usize << order;
+                for f in [0usize, offset - len, (offset - 1) / len * len, offset / 2 / len * len] {
+                    if f >= offset {
+                        continue;
+                    }
+                    for class in [cfg.classing.natural_class(order)] {
+                        for local in [None, cfg.classing.slots(class).filter(|&n| n > 0).map(|_| 0)] {
+                            let req = Request::new(order, Class(class), local);
+                            let rg = catch(|| twin.zone.get(Some(FrameId(f)), req));
+                            let rp = catch(|| twin.zone.put(FrameId(f), req));
+                            let st = catch(|| twin.zone.stats_at(FrameId(f), order));
+                            transitions += 3;
+                            twin.bufs.snapshot_into(&mut b1);
+                            let ok = matches!(rg, Ok(Err(Error::Argument)))
+                                && matches!(rp, Ok(Err(Error::Argument)))
+                                && st.as_ref().is_ok_and(|s| s.free_frames == 0 && s.free_huge == 0 && s.free_trees == 0)
+                                && b1 == *bytes;
+                            if !ok {
+                                col.lock().unwrap().add(
+                                    Violation::new(
+                                        "C17",
+                                        "zone wrapper does not reject a frame below its offset",
+                                        format!(
+                                            "{} offset {offset} after {:?}: frame {f} order {order} slot {local:?}: get {:?} put {:?} unchanged={}",
+                                            cfg.describe(),
+                                            path.iter().map(|o| o.short()).collect::<Vec<_>>(),
+                                            rg.map(|r| r.map(|x| x.0.0)),
+                                            rp,
+                                            b1 == *bytes
+                                        ),
+                                    ),
+                                    || json!({"engine": "dom", "check": "C17-zone-below", "config": cfg.json(), "offset": offset, "frame": f, "order": order}),
+                                );
+                                twin.bufs.restore(bytes);
+                            }
+                        }
+                    }
+                }
+            }
             for op in alphabet(m, cfg, &profile) {
                 sut.bufs.restore(bytes);
                 twin.bufs.restore(bytes);
